@@ -107,7 +107,7 @@ pub fn energy_performance(
     let (rer_onst, rer_nrb) = {
         let tot = balance.we.b.tot();
         if tot > 0.0 {
-            let (onst, nrb) = ren_onst_nrb(&balance_cr, k_exp);
+            let (onst, nrb) = ren_onst_nrb(&balance_cr, k_exp, &wfactors, &components)?;
             (onst / tot, nrb / tot)
         } else {
             (0.0, 0.0)
@@ -133,7 +133,12 @@ pub fn energy_performance(
 /// Renewable energy used (EPB services) from onsite and nearby sources
 /// This excludes the impact on the grid of the exported energy
 /// Cogen generation is considered onsite (and its renewable contribution depends on the step A factor)
-fn ren_onst_nrb(balance_cr: &HashMap<Carrier, BalanceCarrier>, k_exp: f32) -> (f32, f32) {
+fn ren_onst_nrb(
+    balance_cr: &HashMap<Carrier, BalanceCarrier>,
+    k_exp: f32,
+    wfactors: &Factors,
+    components: &Components,
+) -> Result<(f32, f32)> {
     // 1. Renewable energy from all nearby carriers (excluding electricity)
     let ren_nrb_cr = balance_cr
         .iter()
@@ -165,19 +170,49 @@ fn ren_onst_nrb(balance_cr: &HashMap<Carrier, BalanceCarrier>, k_exp: f32) -> (f
         .get(&Carrier::ELECTRICIDAD)
         .map(|cr| cr.we.del_cgn.ren)
         .unwrap_or(0.0);
-    // 3. Renewable resources used for exported electricity
-    // These have to be substracted depending on k_exp value
-    let ren_el_exp_a = balance_cr
-        .get(&Carrier::ELECTRICIDAD)
-        .map(|cr| cr.we.exp_a.ren)
-        .unwrap_or(0.0);
+    // 3. Renewable resources used for exported electricity (step A)
+    // These have to be substracted depending on k_exp value, but only the part
+    // that has been accounted for in each perimeter:
+    // - resources used for the exported onsite electricity (EL_INSITU), in the onsite and nearby perimeters
+    // - resources from nearby carriers used for the exported cogenerated electricity (EL_COGEN), in the nearby perimeter
+    let (ren_el_exp_a_onst, ren_el_exp_a_cgn_nrb) = match balance_cr.get(&Carrier::ELECTRICIDAD) {
+        Some(cr) if cr.exp.an != 0.0 => {
+            let exp_onst = *cr.exp.by_src_an.get(&ProdSource::EL_INSITU).unwrap_or(&0.0);
+            let ren_onst = if exp_onst != 0.0 {
+                let f_exp = |dest: Dest, exp_dest: f32| -> Result<f32> {
+                    if exp_dest == 0.0 {
+                        return Ok(0.0);
+                    }
+                    let f = wfactors.find(Carrier::ELECTRICIDAD, Source::INSITU, dest, Step::A)?;
+                    Ok(exp_dest * f.ren)
+                };
+                (exp_onst / cr.exp.an)
+                    * (f_exp(Dest::A_NEPB, cr.exp.nepus_an)? + f_exp(Dest::A_RED, cr.exp.grid_an)?)
+            } else {
+                0.0
+            };
+            let exp_cgn = *cr.exp.by_src_an.get(&ProdSource::EL_COGEN).unwrap_or(&0.0);
+            let ren_cgn_nrb = if exp_cgn != 0.0 {
+                exp_cgn
+                    * wfactors
+                        .compute_cgn_exp_fP_A(components, true)?
+                        .unwrap_or_default()
+                        .ren
+            } else {
+                0.0
+            };
+            (ren_onst, ren_cgn_nrb)
+        }
+        _ => (0.0, 0.0),
+    };
     // 4. Add all contributions
-    (
+    Ok((
         // Onsite
-        ren_onst_cr + ren_el_onst,
+        ren_onst_cr + ren_el_onst - (1.0 - k_exp) * ren_el_exp_a_onst,
         // Nearby
-        ren_nrb_cr + ren_el_onst + ren_el_cgn - (1.0 - k_exp) * ren_el_exp_a,
-    )
+        ren_nrb_cr + ren_el_onst + ren_el_cgn
+            - (1.0 - k_exp) * (ren_el_exp_a_onst + ren_el_exp_a_cgn_nrb),
+    ))
 }
 
 // --------------------------------------------------------------------
